@@ -79,14 +79,15 @@ Verdict(r) ==
       abnormal ==
          IF r.outcome # "completed" \/ r.miss # <<>> \/ Len(r.ch) # nch
          THEN {<<"abnormal", "outcome", "completed", r.outcome>>} ELSE {}
-      drift0 == {<<"drift", k, InitMap[k], Vinit(k)>> : k \in {x \in MK : Vinit(x) # InitMap[x]}}
-      Mb == EnterCtx(ApplySeq(InitMap, sc.pre, "pre"), sc.ctx)
+      Init0 == InitMapFor(sc.mode)
+      drift0 == {<<"drift", k, Init0[k], Vinit(k)>> : k \in {x \in MK : Vinit(x) # Init0[x]}}
+      Mb == EnterCtx(ApplySeq(Init0, sc.pre, "pre"), sc.ctx)
       (* a redirection-only command is a subshell of its own: a key of its     *)
       (* footprint that changes in the environment executing it is a leak     *)
       Nested(seq) == UNION {NestedFootprint(seq[i]) : i \in 1..Len(seq)}
       Class(seq, k, dflt) == IF k \in Nested(seq) THEN "leak" ELSE dflt
       drift1 == {<<Class(sc.pre, k, "drift"), k, Mb[k], Vbefore(k)>> :
-                    k \in BadKeys(Mb, InitMap, Vbefore, r.d_before, RefInit)}
+                    k \in BadKeys(Mb, Init0, Vbefore, r.d_before, RefInit)}
       files == IF {r.files[i] : i \in 1..Len(r.files)}
                   = NestedFiles(sc.pre) \cup NestedFiles(sc.post) \cup UNION {NestedFiles(sc.ch[j]) : j \in 1..nch}
                THEN {} ELSE {<<"end", "files", "as the redirection-only commands prescribe", "different">>}
@@ -120,8 +121,9 @@ Verdict(r) ==
       leak == {<<"leak", k, Ma[k], Vafter(k)>> : k \in BadKeys(Ma, Ob, Vafter, r.d_after, RefBefore)}
               \cup {<<"leak", k, Vbefore(k), Vafter(k)>> : k \in (DKeys(r.d_after) \ MK) \ extra}
       data ==
-         IF kind_ = "CmdSubst" /\ r.out # "out" THEN {<<"drift", "out", "out", r.out>>}
-         ELSE IF kind_ = "Pipe" /\ r.out # "data\n" THEN {<<"drift", "out", "data", r.out>>}
+         IF sc.fin # "normal" THEN {}    \* e.g. an interrupted substitution abandons its command
+         ELSE IF kind_ = "CmdSubst" /\ r.out # "out" THEN {<<"drift", "out", "out", r.out>>}
+         ELSE IF kind_ \in {"Pipe", "Pipe3", "Pipe4", "NotPipe", "NotPipe3"} /\ r.out # "data\n" THEN {<<"drift", "out", "data", r.out>>}
          ELSE {}
   IN IF abnormal # {} THEN abnormal
      ELSE drift0 \cup drift1 \cup leak \cup data \cup files
